@@ -53,8 +53,7 @@ structure D where
 /-- the manager is about to call the response hook (the harness' gate `rhook` sits inside it) -/
 def headIsResp (s : State) : Bool :=
   match s.mphase, s.mbox with
-  | .idle, .responses p _ _ _ :: _ =>
-    if GS.Generated.ReqLifecycleSpec.hooksAfterPeerFilter then s.reg == .live && p == s.peer else true
+  | .idle, .responses p _ _ _ :: _ => hookRunsFor s p
   | _, _ => false
 
 def parkedWork (d : D) : Bool := (d.dummy || d.s.w == .popped) && d.gWork && !d.tWork
